@@ -240,6 +240,25 @@ func runC05(c *Ctx) {
 		return
 	}
 	hbuf := hdec.Common().Args[len(hdec.Common().Args)-1]
+	// the decode step may sit in a helper that is handed the bytes: the header buffer is then the caller's
+	for d := 0; d < 2; d++ {
+		here := false
+		for _, s := range sites {
+			if s.fn == hdec.Parent() && s.buf == hbuf {
+				here = true
+			}
+		}
+		bp, isP := flow.Peel(hbuf).(*ssa.Parameter)
+		if here || !isP || bp.Parent() != hdec.Parent() || (bp.Parent().Object() != nil && bp.Parent().Object().Exported()) {
+			break
+		}
+		cs := c.uniqueSite(bp.Parent())
+		if cs == nil || !rp[cs.Parent()] {
+			break
+		}
+		hbuf = cs.Common().Args[paramIndex(bp.Parent(), bp)]
+		hdec = cs
+	}
 	var headerSites, bodySites []readSite
 	for _, s := range sites {
 		if s.fn == hdec.Parent() && s.buf == hbuf {
